@@ -1,7 +1,9 @@
 package main
 
 import (
+	_ "github.com/bufbuild/bufverif/checks/c09"
 	_ "github.com/bufbuild/bufverif/checks/c13"
 	_ "github.com/bufbuild/bufverif/checks/c14"
 	_ "github.com/bufbuild/bufverif/checks/c15"
+	_ "github.com/bufbuild/bufverif/checks/c19"
 )
